@@ -19,7 +19,7 @@ EXTENDS Naturals, Sequences, FiniteSets, TLC, Json
 CONSTANTS Dev
 \* each deviation removes one guard (these are the escapes found on the original tree)
 DevNames == {"HeaderNotObject", "CritUnvalidated", "EncUnhashable", "EncMissingJson", "EpkCrvLookup", "P2cRange",
-             "InflateError", "DeepJson", "SegmentTypeConfusion"}
+             "InflateError", "DeepJson", "SegmentTypeConfusion", "LenientSkipsAlgParams"}
 ASSUME Dev \subseteq DevNames
 
 JwsEntries == {"jws.compact", "jws.flattened", "jws.general", "7797.compact", "7797.flattened", "jwt.jws"}
@@ -36,6 +36,10 @@ EpkClasses == {"absent", "str_unknown", "str_otherkty", "str_badb64", "str_short
 CommonMembers == {"alg", "kid", "typ", "cty", "jku", "jwk", "x5c", "crit", "unknown"}
 JwsMembers == CommonMembers \cup {"b64"}
 JweMembers == CommonMembers \cup {"enc", "zip", "epk", "apu", "apv", "p2s", "p2c", "iv", "tag", "skid"}
+
+\* the caller's registry configuration is part of the case: `strict_check_header=False` only stops *unknown* names from
+\* being refused, `verify_all_recipients=False` only lets a later recipient succeed; neither removes a guard
+RegsOf(e) == {"default", "lenient"} \cup (IF e = "jwe.general" THEN {"lenient_any"} ELSE {})
 
 \* ------------------------------------------------------------------ slots
 Slot(kind, name, pos) == [kind |-> kind, name |-> name, pos |-> pos]
@@ -90,8 +94,9 @@ Native(s, c) ==
     [] s.kind = "segment" -> "binascii.Error"          \* a ValueError already
     [] OTHER -> "none"
 
-Guarded(s, c) ==
-  ~ \/ ("HeaderNotObject" \in Dev /\ s.kind = "hdr_type")
+Guarded(s, c, r) ==
+  ~ \/ ("LenientSkipsAlgParams" \in Dev /\ r # "default" /\ Stage(s) = "key_management")
+    \/ ("HeaderNotObject" \in Dev /\ s.kind = "hdr_type")
     \/ ("CritUnvalidated" \in Dev /\ s.kind = "member" /\ s.name = "crit")
     \/ ("EncUnhashable" \in Dev /\ s.kind = "member" /\ s.name \in {"enc", "zip"} /\ c # "absent")
     \/ ("EncMissingJson" \in Dev /\ s.kind = "member" /\ s.name = "enc" /\ c = "absent")
@@ -105,13 +110,13 @@ VARIABLES case, at, seen
 vars == <<case, at, seen>>
 
 Init == /\ at = 1 /\ seen = "none"
-        /\ \E e \in Entries : \E s \in SlotsOf(e) : \E c \in ClassesOf(s) : case = [entry |-> e, slot |-> s, class |-> c]
+        /\ \E e \in Entries : \E s \in SlotsOf(e) : \E c \in ClassesOf(s) : \E r \in RegsOf(e) : case = [entry |-> e, slot |-> s, class |-> c, reg |-> r]
 
 Advance ==
   /\ seen = "none" /\ at <= Len(Stages)
   /\ IF Stages[at] = Stage(case.slot) /\ Native(case.slot, case.class) # "none"
      THEN seen' = IF Native(case.slot, case.class) = "binascii.Error" THEN "value_error"
-                  ELSE IF Guarded(case.slot, case.class) THEN "jose_or_value_error" ELSE "escape:" \o Native(case.slot, case.class)
+                  ELSE IF Guarded(case.slot, case.class, case.reg) THEN "jose_or_value_error" ELSE "escape:" \o Native(case.slot, case.class)
      ELSE seen' = IF at = Len(Stages) THEN "return_or_jose" ELSE "none"
   /\ at' = at + 1 /\ UNCHANGED case
 Next == Advance
